@@ -149,9 +149,6 @@ Proof.
   change (rev (t "_Movement")) with [116; 110; 101; 109; 101; 118; 111; 77; 95]%N in E.
   cbn [app] in E. discriminate E.
 Qed.
-Print Assumptions text_label_injective.
-Print Assumptions mov_label_injective.
-Print Assumptions text_label_not_mov_label.
 
 (* ================================================================================================================ *)
 (* 2. inline texts                                                                                                   *)
@@ -360,7 +357,6 @@ Proof.
       rewrite Hps, <- app_assoc. split; [reflexivity|]. split; [now rewrite Hlen|]. constructor; [|exact Hall].
       rewrite (table_find_at _ _ _ _ T'), (tt_cnt _ _ T). reflexivity.
 Qed.
-Print Assumptions add_texts_table.
 
 (* declarative reading of the table: the label stored for (v, ty) is the label of the FIRST appearance of (v, ty):
    <its script>_Text_<number of earlier first appearances owned by that script> *)
@@ -376,7 +372,6 @@ Proof.
     + apply (table_find_none _ _ v ty T) in Y. congruence.
   - intros (A & it & B & -> & E & ->). unfold tkey in E. inversion E; subst. exact (table_find_at _ _ _ _ T).
 Qed.
-Print Assumptions text_table_lookup.
 
 (* --- (3) the generated text names are pairwise different --- *)
 Lemma text_defs_names_range : forall F pre x, In x (text_defs pre F) ->
@@ -460,9 +455,6 @@ Proof.
   pose proof (hoisted_text_names_distinct _ _ T P) as ND. split; [apply filter_once; assumption|].
   exists x. repeat (split; [first [assumption|reflexivity]|]). intros y Iy E. eapply NoDup_map_inj; eauto.
 Qed.
-Print Assumptions hoisted_text_names_distinct.
-Print Assumptions text_label_determines_content.
-Print Assumptions hoisted_text_defined_once.
 
 (* --- what new_texts computes --- *)
 Lemma new_texts_app : forall a seen b,
@@ -680,7 +672,6 @@ Proof.
       rewrite Hps, <- app_assoc. split; [reflexivity|]. split; [now rewrite Hlen|]. constructor; [|exact Hall].
       rewrite (mtable_find_at _ _ _ _ T'), (mt_cnt _ _ T). reflexivity.
 Qed.
-Print Assumptions add_movs_table.
 
 Theorem mov_table_lookup G h : mov_table G h -> forall k l,
   assoc (hmset h) k = Some l <->
@@ -694,7 +685,6 @@ Proof.
     + apply (mtable_find_none _ _ k T) in Y. congruence.
   - intros (A & im & B & -> & E & ->). unfold mkey in E. subst k. exact (mtable_find_at _ _ _ _ T).
 Qed.
-Print Assumptions mov_table_lookup.
 
 Lemma mov_defs_names_range : forall G pre n, In n (mov_names (mov_defs pre G)) ->
   exists s k, n = mov_label s k /\ (owned s (map imScript pre) <= k < owned s (map imScript (pre ++ G)))%nat.
@@ -793,9 +783,6 @@ Proof.
   destruct (mov_once _ ND l (mov_names_in _ _ _ _ _ J)) as [L U]. split; [exact L|].
   exists tk, st. split; [exact J|]. split; [exact K|]. intros g' tk' st' J'. specialize (U _ _ _ _ _ _ J J'). inversion U; auto.
 Qed.
-Print Assumptions hoisted_mov_names_distinct.
-Print Assumptions mov_label_determines_content.
-Print Assumptions hoisted_mov_defined_once.
 
 (* the key determines the step literals, as long as no literal contains ':' (movement steps are identifiers) *)
 Lemma split_first_unique {A} (x : A) : forall a b r1 r2,
@@ -819,7 +806,6 @@ Proof.
     inversion Fa; inversion Fb; subst. apply split_first_unique in E; [|assumption|assumption].
     destruct E as [-> E]. f_equal. apply IH; assumption.
 Qed.
-Print Assumptions mov_key_injective.
 
 Lemma new_movs_app : forall a seen b,
   new_movs seen (a ++ b) = new_movs seen a ++ new_movs (seen ++ map mkey (new_movs seen a)) b.
@@ -902,7 +888,6 @@ Proof.
   exists tl, ml. cbn [app] in Hps1. subst ps1. split; [exact Hps|]. split; [exact Ltl|]. split; [exact Lml|].
   split; [rewrite Gb; exact Atl|exact Aml].
 Qed.
-Print Assumptions add_implicit_table.
 
 Lemma Forall2_impl {A B} (P Q : A -> B -> Prop) l1 l2 : (forall a b, P a b -> Q a b) -> Forall2 P l1 l2 -> Forall2 Q l1 l2.
 Proof. intros I H. induction H; constructor; auto. Qed.
@@ -927,7 +912,6 @@ Proof.
   - eapply Forall2_impl; [|exact Atl]. intros it l Q. apply (text_table_lookup _ _ T') in Q. exact Q.
   - eapply Forall2_impl; [|exact Aml]. intros im l Q. apply (mov_table_lookup _ _ M') in Q. exact Q.
 Qed.
-Print Assumptions add_implicit_labels.
 
 (* (1) as equations on add_implicit, for one inline text and for one moves() argument *)
 Theorem add_implicit_new_text F G h it :
@@ -976,10 +960,6 @@ Proof.
     split; [exact E|]. split; [exact K|]. unfold add_implicit. cbn [idT idM add_texts]. rewrite (add_movs_known _ _ _ _ _ Q). reflexivity.
   - apply (mtable_find_none _ _ _ M) in Q. contradiction.
 Qed.
-Print Assumptions add_implicit_new_text.
-Print Assumptions add_implicit_known_text.
-Print Assumptions add_implicit_new_mov.
-Print Assumptions add_implicit_known_mov.
 
 (* --- a whole file: the hoisting state is threaded through all scripts and mapscripts statements --- *)
 Fixpoint hoist_all (imps : list impdata) (h : hst) : hst * list (list patch) :=
@@ -1027,8 +1007,6 @@ Proof.
       * eapply Forall2_impl; [|exact Aml]. intros im l Q. exact (mtable_mono _ _ _ _ _ _ M1 M2 Q).
     + eapply Rest; eauto.
 Qed.
-Print Assumptions hoist_all_table.
-Print Assumptions hoist_all_labels.
 
 (* --- the parser: parse_tops threads the hoisting state through the scripts and mapscripts of the file --- *)
 Section PROGRAM.
@@ -1262,20 +1240,6 @@ Proof.
   - rewrite R. unfold err_tok. eauto.
 Qed.
 End PROGRAM.
-Print Assumptions parse_tops_hoists.
-Print Assumptions parse_program_outcome.
-Print Assumptions program_hoisting.
-Print Assumptions program_text_label_defined_once.
-Print Assumptions program_mov_label_defined_once.
-Print Assumptions text_name_clash_is_error.
-Print Assumptions mov_name_clash_is_error.
-Print Assumptions program_text_label_determines_content.
-Print Assumptions program_mov_label_determines_content.
-Print Assumptions new_texts_first.
-Print Assumptions new_texts_inv.
-Print Assumptions new_texts_cover.
-Print Assumptions new_movs_first.
-Print Assumptions new_movs_inv.
 
 (* ================================================================================================================ *)
 (* 5. examples and counterexamples                                                                                   *)
